@@ -27,8 +27,44 @@ type Spec struct {
 	Assumptions []string  `json:"assumptions"`
 	Outside     []string  `json:"outside_bounds"`
 	Explanation string    `json:"explanation"`
-	MemLimitMB  int       `json:"mem_limit_mb"` // native replays run under this address-space limit
-	Probes      []string  `json:"probes"` // native functions run once on the real build; their VERIF-PROBE k=v lines become bounds
+	MemLimitMB  int       `json:"mem_limit_mb"`  // native replays run under this address-space limit
+	Probes      []string  `json:"probes"`        // native functions run once on the real build; their VERIF-PROBE k=v lines become bounds
+	Rewrites    []Rewrite `json:"scaled_source"` // mechanical rewrites of /repo's current source used by the runs marked "scaled"
+	useScaled   bool
+}
+
+// Rewrite scales a constant of the code under test down (e.g. a 10 MiB block size to a few bytes) so that behaviour
+// at and across the constant's boundaries falls inside small bounds. It is applied to the file as it is in /repo's
+// working tree on every run, must match exactly once, and is used for the symbolic run and the native replay alike.
+type Rewrite struct {
+	File    string `json:"file"` // relative to the repository root
+	Match   string `json:"match"`
+	Replace string `json:"replace"`
+	Why     string `json:"why"`
+}
+
+// rewrittenSources returns absolute path -> rewritten content.
+func rewrittenSources(spec *Spec) (map[string][]byte, error) {
+	out := map[string][]byte{}
+	for _, rw := range spec.Rewrites {
+		p := filepath.Join(repoDir, rw.File)
+		b, ok := out[p]
+		if !ok {
+			var err error
+			if b, err = os.ReadFile(p); err != nil {
+				return nil, err
+			}
+		}
+		re, err := regexp.Compile(rw.Match)
+		if err != nil {
+			return nil, err
+		}
+		if n := len(re.FindAllIndex(b, -1)); n != 1 {
+			return nil, fmt.Errorf("scaled_source: %q matches %d times in %s (must match exactly once)", rw.Match, n, rw.File)
+		}
+		out[p] = re.ReplaceAll(b, []byte(rw.Replace))
+	}
+	return out, nil
 }
 
 type RunSpec struct {
@@ -50,6 +86,7 @@ type RunSpec struct {
 	Cross      string           `json:"cross_solver"` // thorough: re-run on this solver and compare
 	What       string           `json:"what"`
 	NativeS    int              `json:"native_timeout_s"` // wall-clock limit of one native replay (default 20)
+	Scaled     bool             `json:"scaled"`           // run against the spec's scaled_source rewrites
 }
 
 type KnownFinding struct {
@@ -75,12 +112,13 @@ func inTier(r RunSpec, tier string) bool {
 }
 
 type confirmedViolation struct {
-	v       Violation
-	run     string
-	replay  string // path of the replay file
-	native  string // reproduced | not-run | ...
-	known   *KnownFinding
-	count   int
+	v      Violation
+	run    string
+	replay string // path of the replay file
+	native string // reproduced | not-run | ...
+	known  *KnownFinding
+	count  int
+	scaled bool
 }
 
 func violKey(v Violation) string { return v.entry + "|" + v.kind + "|" + v.msg + "|" + v.detail }
@@ -115,6 +153,15 @@ func harnessOverlay(spec *Spec, native bool) (map[string][]byte, error) {
 	for _, h := range spec.Harness {
 		if err := add(h); err != nil {
 			return nil, err
+		}
+	}
+	if spec.useScaled {
+		rw, err := rewrittenSources(spec)
+		if err != nil {
+			return nil, err
+		}
+		for p, b := range rw {
+			ov[p] = b
 		}
 	}
 	return ov, nil
@@ -204,174 +251,214 @@ func checkMain(args []string) int {
 		}
 		fmt.Printf("native probes: %d values read from the real build\n", len(probed))
 	}
-	for _, rs := range spec.Runs {
-		if len(probed) > 0 {
-			nb := map[string]int64{}
-			for k, v := range probed {
-				nb[k] = v
-			}
-			for k, v := range rs.Bounds {
-				nb[k] = v
-			}
-			rs.Bounds = nb
-		}
-		if !inTier(rs, tier) || (only != "" && rs.Name != only && rs.Entry != only) {
-			continue
-		}
-		opts := RunOpts{Entry: rs.Entry, Bounds: rs.Bounds, Solver: rs.Solver, Sched: rs.Sched, Unwind: rs.Unwind,
-			MaxPaths: rs.MaxPaths, MaxSteps: rs.MaxSteps, QueryMs: rs.QueryMs, SampleEvery: 50, AllowPanic: rs.AllowPanic, MaxViol: 2000}
-		opts.Preempt = -1
-		if rs.Preempt != nil {
-			opts.Preempt = *rs.Preempt
-		}
-		if rs.TimeoutS > 0 {
-			opts.Deadline = time.Now().Add(time.Duration(rs.TimeoutS) * time.Second)
-		}
-		rr, err := explore(prog, opts)
-		if err != nil {
-			fmt.Println("explore:", err)
-			return 2
-		}
-		if rr.Paths > 3000 {
-			// keep the evidence small: thin the samples
-			rr.Samples = thin(rr.Samples, 200, seed)
-		}
-		results = append(results, rr)
-		fmt.Printf("run %-28s paths=%d steps=%d queries=%v solver=%.1fs wall=%.1fs status=%v viol=%d\n", rs.Name, rr.Paths, rr.Steps, rr.Queries, rr.SolverS, rr.WallS, rr.Status, len(rr.Viols))
-		for m, n := range rr.Msgs {
-			if strings.HasPrefix(m, "unsupported") || strings.HasPrefix(m, "unwind") {
-				fmt.Printf("    %5d %s\n", n, m)
-			}
-		}
-		// --- undecided outcomes
-		if rr.TimedOut {
-			problems = append(problems, fmt.Sprintf("%s: run timed out after %ds (bound not decided)", rs.Name, rs.TimeoutS))
-		}
-		if rr.Truncated && len(rr.Viols) == 0 {
-			problems = append(problems, fmt.Sprintf("%s: path budget exhausted", rs.Name))
-		}
-		if rr.Inconcl > 0 || rr.Queries["unknown"] > 0 || rr.Queries["error"] > 0 {
-			problems = append(problems, fmt.Sprintf("%s: %d inconclusive solver answers", rs.Name, rr.Inconcl+rr.Queries["unknown"]+rr.Queries["error"]))
-		}
-		if n := rr.Status["unsupported"]; n > 0 {
-			problems = append(problems, fmt.Sprintf("%s: %d paths hit an unsupported construct", rs.Name, n))
-		}
-		// --- vacuity
-		for _, lbl := range rs.Reach {
-			if rr.Reached[lbl] == 0 && len(rr.Viols) == 0 {
-				problems = append(problems, fmt.Sprintf("%s: vacuous: witness %q not reached", rs.Name, lbl))
-			}
-		}
-		natT := 20 * time.Second
-		if rs.NativeS > 0 {
-			natT = time.Duration(rs.NativeS) * time.Second
-		}
-		// --- native replayer on demand
-		needNative := rs.Replay == "native"
-		if needNative && rep == nil {
-			rep, err = newNativeReplayer(&spec)
-			if err == nil {
-				rep.memLimitKB = spec.MemLimitMB * 1024
-			}
-			if err != nil {
-				fmt.Println("native replay build failed:", err)
-				problems = append(problems, "native replay build failed: "+firstLine(err.Error()))
-				rep = nil
-				needNative = false
-			}
-		}
-		// --- unwind paths: a hang candidate
-		if n := rr.Status["unwind"]; n > 0 {
-			hang := false
-			if needNative && rep != nil {
-				for _, u := range rr.Undecided {
-					if u.Status != "unwind" {
-						continue
-					}
-					out := rep.run(u.Entry, u.Bounds, u.Inputs, 10*time.Second, u.Env)
-					if out.timedOut {
-						v := Violation{kind: "hang", msg: "loop does not terminate: " + u.Msg, hvals: u.Inputs, entry: u.Entry, bounds: u.Bounds}
-						rr.Viols = append(rr.Viols, v)
-						hang = true
-						break
-					}
+	progPlain := prog
+	for pass := 0; pass < 2; pass++ {
+		if pass == 1 {
+			any := false
+			for _, rs := range spec.Runs {
+				if rs.Scaled && inTier(rs, tier) && (only == "" || rs.Name == only || rs.Entry == only) {
+					any = true
 				}
 			}
-			if !hang {
-				problems = append(problems, fmt.Sprintf("%s: %d paths exceeded the unwinding bound %d", rs.Name, n, opts.Unwind))
-			}
-		}
-		// --- violations: group, confirm by concrete re-execution and natively
-		groups := map[string][]Violation{}
-		var order []string
-		for _, v := range rr.Viols {
-			k := violKey(v)
-			if _, ok := groups[k]; !ok {
-				order = append(order, k)
-			}
-			groups[k] = append(groups[k], v)
-		}
-		sort.Strings(order)
-		for _, k := range order {
-			vs := groups[k]
-			var ok *confirmedViolation
-			spurious := 0
-			for i, v := range vs {
-				if i >= 5 {
-					break
-				}
-				cv := &confirmedViolation{v: v, run: rs.Name, count: len(vs), native: "not-run"}
-				if v.kind != "hang" {
-					pr, err := replayInterp(prog, opts, v.decisions, v.model)
-					if err != nil {
-						continue
-					}
-					found := false
-					for _, pv := range pr.viols {
-						if pv.kind == v.kind && pv.msg == v.msg && pv.detail == v.detail {
-							found = true
-						}
-					}
-					if !found {
-						spurious++
-						fmt.Printf("UNCONFIRMED (concrete re-execution of the model does not violate): %s %s %s [got status=%s %s viols=%d]\n", v.entry, v.kind, v.msg, pr.status, pr.msg, len(pr.viols))
-						continue
-					}
-				}
-				if needNative && rep != nil && v.kind != "hang" {
-					out := rep.run(v.entry, v.bounds, v.hvals, natT, v.env)
-					if !out.matches(v) {
-						spurious++
-						fmt.Printf("UNCONFIRMED (native replay against the real build does not reproduce): %s %s %q native=%s\n", v.entry, v.kind, v.msg, out.summary())
-						continue
-					}
-					cv.native = "reproduced"
-				}
-				ok = cv
+			if !any {
 				break
 			}
-			if ok == nil {
-				problems = append(problems, fmt.Sprintf("%s: %d counterexample(s) for %q did not reproduce (engine or stub imprecision)", rs.Name, spurious, k))
+			spec.useScaled = true
+			if rep != nil && !keep {
+				rep.cleanup()
+			}
+			rep = nil
+			ov2, err := harnessOverlay(&spec, false)
+			if err == nil {
+				prog, err = loadProgram(ov2)
+			}
+			if err != nil {
+				fmt.Println("UNDECIDED: cannot load /repo with the scaled source:", err)
+				problems = append(problems, "scaled source: "+firstLine(err.Error()))
+				prog = progPlain
+				break
+			}
+			fmt.Printf("loaded /repo/trzsz with %d scaled-source rewrite(s) in %.1fs\n", len(spec.Rewrites), prog.loadS)
+		}
+		for _, rs := range spec.Runs {
+			if rs.Scaled != (pass == 1) {
 				continue
 			}
-			confirmed = append(confirmed, ok)
-		}
-		// --- translator validation: replay sampled paths natively, outcome must agree with the prediction
-		if needNative && rep != nil && len(rr.Samples) > 0 {
-			nval := 5
-			if tier == "thorough" {
-				nval = 40
+			if len(probed) > 0 {
+				nb := map[string]int64{}
+				for k, v := range probed {
+					nb[k] = v
+				}
+				for k, v := range rs.Bounds {
+					nb[k] = v
+				}
+				rs.Bounds = nb
 			}
-			for _, s := range thin(rr.Samples, nval, seed+1) {
-				if s.Status != "ok" && s.Status != "blocked-expected" {
+			if !inTier(rs, tier) || (only != "" && rs.Name != only && rs.Entry != only) {
+				continue
+			}
+			opts := RunOpts{Entry: rs.Entry, Bounds: rs.Bounds, Solver: rs.Solver, Sched: rs.Sched, Unwind: rs.Unwind,
+				MaxPaths: rs.MaxPaths, MaxSteps: rs.MaxSteps, QueryMs: rs.QueryMs, SampleEvery: 50, AllowPanic: rs.AllowPanic, MaxViol: 2000}
+			opts.Preempt = -1
+			if rs.Preempt != nil {
+				opts.Preempt = *rs.Preempt
+			}
+			if rs.TimeoutS > 0 {
+				opts.Deadline = time.Now().Add(time.Duration(rs.TimeoutS) * time.Second)
+			}
+			rr, err := explore(prog, opts)
+			if err != nil {
+				fmt.Println("explore:", err)
+				return 2
+			}
+			if rr.Paths > 3000 {
+				// keep the evidence small: thin the samples
+				rr.Samples = thin(rr.Samples, 200, seed)
+			}
+			results = append(results, rr)
+			fmt.Printf("run %-28s paths=%d steps=%d queries=%v solver=%.1fs wall=%.1fs status=%v viol=%d\n", rs.Name, rr.Paths, rr.Steps, rr.Queries, rr.SolverS, rr.WallS, rr.Status, len(rr.Viols))
+			for m, n := range rr.Msgs {
+				if strings.HasPrefix(m, "unsupported") || strings.HasPrefix(m, "unwind") {
+					fmt.Printf("    %5d %s\n", n, m)
+				}
+			}
+			// --- undecided outcomes
+			if rr.TimedOut {
+				problems = append(problems, fmt.Sprintf("%s: run timed out after %ds (bound not decided)", rs.Name, rs.TimeoutS))
+			}
+			if rr.Truncated && len(rr.Viols) == 0 {
+				problems = append(problems, fmt.Sprintf("%s: path budget exhausted", rs.Name))
+			}
+			if rr.Inconcl > 0 || rr.Queries["unknown"] > 0 || rr.Queries["error"] > 0 {
+				problems = append(problems, fmt.Sprintf("%s: %d inconclusive solver answers", rs.Name, rr.Inconcl+rr.Queries["unknown"]+rr.Queries["error"]))
+			}
+			if n := rr.Status["unsupported"]; n > 0 {
+				problems = append(problems, fmt.Sprintf("%s: %d paths hit an unsupported construct", rs.Name, n))
+			}
+			// --- vacuity
+			for _, lbl := range rs.Reach {
+				if rr.Reached[lbl] == 0 && len(rr.Viols) == 0 {
+					problems = append(problems, fmt.Sprintf("%s: vacuous: witness %q not reached", rs.Name, lbl))
+				}
+			}
+			natT := 20 * time.Second
+			if rs.NativeS > 0 {
+				natT = time.Duration(rs.NativeS) * time.Second
+			}
+			// --- native replayer on demand
+			needNative := rs.Replay == "native"
+			if needNative && rep == nil {
+				rep, err = newNativeReplayer(&spec)
+				if err == nil {
+					rep.memLimitKB = spec.MemLimitMB * 1024
+				}
+				if err != nil {
+					fmt.Println("native replay build failed:", err)
+					problems = append(problems, "native replay build failed: "+firstLine(err.Error()))
+					rep = nil
+					needNative = false
+				}
+			}
+			// --- unwind paths: a hang candidate
+			if n := rr.Status["unwind"]; n > 0 {
+				hang := false
+				if needNative && rep != nil {
+					for _, u := range rr.Undecided {
+						if u.Status != "unwind" {
+							continue
+						}
+						out := rep.run(u.Entry, u.Bounds, u.Inputs, 10*time.Second, u.Env)
+						if out.timedOut {
+							v := Violation{kind: "hang", msg: "loop does not terminate: " + u.Msg, hvals: u.Inputs, entry: u.Entry, bounds: u.Bounds}
+							rr.Viols = append(rr.Viols, v)
+							hang = true
+							break
+						}
+					}
+				}
+				if !hang {
+					problems = append(problems, fmt.Sprintf("%s: %d paths exceeded the unwinding bound %d", rs.Name, n, opts.Unwind))
+				}
+			}
+			// --- violations: group, confirm by concrete re-execution and natively
+			groups := map[string][]Violation{}
+			var order []string
+			for _, v := range rr.Viols {
+				k := violKey(v)
+				if _, ok := groups[k]; !ok {
+					order = append(order, k)
+				}
+				groups[k] = append(groups[k], v)
+			}
+			sort.Strings(order)
+			for _, k := range order {
+				vs := groups[k]
+				var ok *confirmedViolation
+				spurious := 0
+				for i, v := range vs {
+					if i >= 5 {
+						break
+					}
+					cv := &confirmedViolation{v: v, run: rs.Name, count: len(vs), native: "not-run", scaled: rs.Scaled}
+					if v.kind != "hang" {
+						pr, err := replayInterp(prog, opts, v.decisions, v.model)
+						if err != nil {
+							continue
+						}
+						found := false
+						for _, pv := range pr.viols {
+							if pv.kind == v.kind && pv.msg == v.msg && pv.detail == v.detail {
+								found = true
+							}
+						}
+						if !found {
+							spurious++
+							fmt.Printf("UNCONFIRMED (concrete re-execution of the model does not violate): %s %s %s [got status=%s %s viols=%d]\n", v.entry, v.kind, v.msg, pr.status, pr.msg, len(pr.viols))
+							continue
+						}
+					}
+					if needNative && rep != nil && v.kind != "hang" {
+						out := rep.run(v.entry, v.bounds, v.hvals, natT, v.env)
+						for retry := 0; retry < 2 && !out.matches(v); retry++ {
+							out = rep.run(v.entry, v.bounds, v.hvals, natT, v.env)
+						}
+						if !out.matches(v) {
+							spurious++
+							fmt.Printf("UNCONFIRMED (native replay against the real build does not reproduce): %s %s %q native=%s\n", v.entry, v.kind, v.msg, out.summary())
+							continue
+						}
+						cv.native = "reproduced"
+					}
+					ok = cv
+					break
+				}
+				if ok == nil {
+					problems = append(problems, fmt.Sprintf("%s: %d counterexample(s) for %q did not reproduce (engine or stub imprecision)", rs.Name, spurious, k))
 					continue
 				}
-				validationTried++
-				out := rep.run(s.Entry, s.Bounds, s.Inputs, natT, s.Env)
-				if out.agrees(s) {
-					validated++
-				} else {
-					problems = append(problems, fmt.Sprintf("%s: translator validation: native run disagrees with the symbolic path (predicted %s %v, native %s) inputs=%s env=%v", rs.Name, s.Status, s.Reached, out.summary(), fmtInputs(s.Inputs), s.Env))
+				confirmed = append(confirmed, ok)
+			}
+			// --- translator validation: replay sampled paths natively, outcome must agree with the prediction
+			if needNative && rep != nil && len(rr.Samples) > 0 {
+				nval := 5
+				if tier == "thorough" {
+					nval = 40
+				}
+				for _, s := range thin(rr.Samples, nval, seed+1) {
+					if s.Status != "ok" && s.Status != "blocked-expected" {
+						continue
+					}
+					validationTried++
+					out := rep.run(s.Entry, s.Bounds, s.Inputs, natT, s.Env)
+					for retry := 0; retry < 2 && !out.agrees(s); retry++ {
+						// the native side detects quiescence by wall clock; under load it can misjudge: ask again
+						out = rep.run(s.Entry, s.Bounds, s.Inputs, natT, s.Env)
+					}
+					if out.agrees(s) {
+						validated++
+					} else {
+						problems = append(problems, fmt.Sprintf("%s: translator validation: native run disagrees with the symbolic path (predicted %s %v, native %s) inputs=%s env=%v", rs.Name, s.Status, s.Reached, out.summary(), fmtInputs(s.Inputs), s.Env))
+					}
 				}
 			}
 		}
@@ -473,24 +560,28 @@ func fmtInputs(h []NondetVal) string {
 
 // ReplayFile is the on-disk form of a counterexample; `vsym replay <file>` re-runs it natively.
 type ReplayFile struct {
-	Property  string           `json:"property"`
-	Entry     string           `json:"entry"`
-	Harness   []string         `json:"harness"`
-	Bounds    map[string]int64 `json:"bounds"`
-	Kind      string           `json:"kind"`
-	Assertion string           `json:"assertion"`
-	Detail    string           `json:"detail,omitempty"`
-	Inputs    []NondetVal      `json:"inputs"`
-	Env       []FSPre          `json:"fs_pre,omitempty"`
+	Property  string            `json:"property"`
+	Entry     string            `json:"entry"`
+	Harness   []string          `json:"harness"`
+	Bounds    map[string]int64  `json:"bounds"`
+	Kind      string            `json:"kind"`
+	Assertion string            `json:"assertion"`
+	Detail    string            `json:"detail,omitempty"`
+	Inputs    []NondetVal       `json:"inputs"`
+	Env       []FSPre           `json:"fs_pre,omitempty"`
 	Model     map[string]uint64 `json:"model"`
-	Decisions [][2]uint64      `json:"decisions"`
-	Native    string           `json:"native"`
-	Run       string           `json:"run"`
+	Decisions [][2]uint64       `json:"decisions"`
+	Native    string            `json:"native"`
+	Run       string            `json:"run"`
+	Rewrites  []Rewrite         `json:"scaled_source,omitempty"`
 }
 
 func writeReplay(spec *Spec, cv *confirmedViolation) string {
 	rf := ReplayFile{Property: spec.Property, Entry: cv.v.entry, Harness: spec.Harness, Bounds: cv.v.bounds, Kind: cv.v.kind,
 		Assertion: cv.v.msg, Detail: cv.v.detail, Inputs: cv.v.hvals, Env: cv.v.env, Model: cv.v.model, Native: cv.native, Run: cv.run}
+	if cv.scaled {
+		rf.Rewrites = spec.Rewrites
+	}
 	for _, d := range cv.v.decisions {
 		b := uint64(0)
 		if d.b {
